@@ -304,4 +304,216 @@ Section Exact.
     - intros j H1 H2. specialize (D j H1 H2). rewrite count_ev_rev in D.
       pose proof (T_count _ _ (G_tinv _ HG) (i + j) ltac:(lia)) as [_ CE']. rewrite <- CE'. exact D.
   Qed.
+
+  (* ------------------------------------------------------------------ the converse of completeness *)
+  Lemma exact_run : forall tr, tr_spec n tr -> respects n m fails tr ->
+    exists sched, trace (run sched init) = tr /\ Clean (run sched init).
+  Proof.
+    induction tr as [|e tr IH] using rev_ind; intros HS HR.
+    - exists []. split; [reflexivity|]. split; [reflexivity | intros; reflexivity].
+    - apply tr_spec_snoc_inv in HS. destruct HS as [HS HE].
+      unfold respects in HR. apply Forall_app in HR. destruct HR as [HR1 HR2].
+      apply Forall_inv in HR2.
+      destruct (IH HS HR1) as (sched & ET & HC).
+      remember (run sched init) as st eqn:Est.
+      assert (HG : Good st).
+      { subst st. constructor; [apply reachable_inv | apply reachable_tinv | exact HC]. }
+      rewrite <- ET in HE. destruct e as [i p k]. destruct p.
+      + (* begin *)
+        destruct (ev_ok_begin_nodes st i k HG HE) as (Hi & A & B & C & D).
+        destruct HR2 as [Km HRb]. simpl in Km, HRb. specialize (HRb eq_refl). destruct HRb as [NFp NFd].
+        assert (X : exists st1, quiet st st1 /\ nodes st1 i = mkNode PHolding k Running).
+        { unfold begun, ended in A, B.
+          destruct (ph (nodes st i)) eqn:P.
+          - apply (pull_up st i k HG Hi P (eq_sym A) Km).
+            + intros H2. destruct C; [lia|assumption].
+            + exact NFp.
+          - exists st. split; [apply quiet_refl; assumption|].
+            pose proof (proj2 (G_clean _ HG) i) as R.
+            destruct (nodes st i) as [p c s]. simpl in *. subst. reflexivity.
+          - lia.
+          - destruct (push_down (n - i) i st ltac:(lia) ltac:(lia) HG P) as (st1 & Q1 & N1 & F1).
+            + intros j H1 H2. specialize (D j H1 H2). lia.
+            + intros j H1 H2 H3. specialize (NFd j H2 ltac:(lia)).
+              replace (k - S j) with (cnt (nodes st i) - j) in NFd by lia. exact NFd.
+            + pose proof (quiet_good _ _ HG Q1) as HG1.
+              destruct (pull_up st1 i k HG1 Hi) as (st2 & Q2 & N2).
+              * rewrite N1; reflexivity.
+              * rewrite N1. simpl. lia.
+              * exact Km.
+              * intros H2. rewrite F1 by lia. destruct C; [lia|assumption].
+              * exact NFp.
+              * exists st2. split; [eapply quiet_trans; eassumption | exact N2].
+          - exfalso. destruct (I_failed _ _ _ _ (G_inv _ HG) i P) as [Ff _].
+            specialize (NFd 0 ltac:(lia) ltac:(lia)). rewrite Nat.add_0_r in NFd.
+            replace (k - 1) with (cnt (nodes st i)) in NFd by lia. congruence. }
+        destruct X as (st1 & Q1 & N1).
+        pose proof (quiet_good _ _ HG Q1) as HG1.
+        destruct Q1 as ((s1 & R1) & T1 & C1).
+        assert (P1 : ph (nodes st1 i) = PHolding) by (rewrite N1; reflexivity).
+        destruct (begin_step st1 i HG1 Hi P1) as (st2 & E2 & T2 & C2).
+        exists (sched ++ s1 ++ [Begin i]). rewrite !run_app. rewrite <- Est, R1, (run_one _ _ _ E2).
+        split; [|exact C2]. unfold trace in *. rewrite T2, T1, N1. simpl. rewrite ET. reflexivity.
+      + (* end *)
+        unfold ev_ok, trace in HE. simpl in HE. destruct HE as (Hi & A & B). rewrite !count_ev_rev in *.
+        pose proof (T_count _ _ (G_tinv _ HG) i Hi) as [CB CE]. rewrite CB, CE in *.
+        unfold begun, ended in A, B.
+        destruct (ph (nodes st i)) eqn:P; try lia.
+        destruct (end_step st i HG Hi P) as (st2 & E2 & T2 & C2).
+        exists (sched ++ [End i]). rewrite !run_app. rewrite <- Est, (run_one _ _ _ E2).
+        split; [|exact C2]. unfold trace in *. rewrite T2. simpl. rewrite ET, B. reflexivity.
+  Qed.
+
+  (* ------------------------------------------------------------------ every run fits its instance *)
+  Record FInv (st : state) : Prop := {
+    F_passed : forall i k, 1 <= i <= n -> k < cnt (nodes st i) -> fails i k = false;
+    F_ready : forall i, 1 <= i <= n -> ph (nodes st i) = PReady -> fails i (cnt (nodes st i)) = false;
+    F_resp : Forall (respects_ev n m fails) (trace_rev st)
+  }.
+
+  Lemma finv_init : FInv init.
+  Proof. constructor; simpl; intros; try lia; try discriminate. constructor. Qed.
+
+  Ltac fnodes HF :=
+    let j := fresh "j" in let k := fresh "k" in let Hj := fresh "Hj" in
+    split; [ intros j k Hj; pose proof (F_passed _ HF j k Hj); pose proof (F_ready _ HF j Hj)
+           | intros j Hj; pose proof (F_passed _ HF j (cnt (nodes _ j)) Hj); pose proof (F_ready _ HF j Hj) ].
+
+  Lemma step_finv : forall l st st', Inv st -> FInv st -> step l st = Some st' -> FInv st'.
+  Proof.
+    intros l st st' HI HF Hs.
+    assert (G : forall nds tr,
+      (forall j k, 1 <= j <= n -> k < cnt (nds j) -> fails j k = false) ->
+      (forall j, 1 <= j <= n -> ph (nds j) = PReady -> fails j (cnt (nds j)) = false) ->
+      Forall (respects_ev n m fails) tr ->
+      forall c e s r, FInv (mkState nds c e s r tr)).
+    { intros; constructor; assumption. }
+    destruct l as [|i|i|i|i|i|i]; simpl in Hs;
+    match type of Hs with (if ?c then _ else _) = _ => destruct c eqn:Hc; [|discriminate] end;
+    bfacts.
+    - (* Fetch *) injection Hs as <-. apply G; simpl; [| |apply (F_resp _ HF)].
+      + intros j k Hj. pose proof (F_passed _ HF j k Hj). updc; subst; simpl in *; [lia|assumption].
+      + intros j Hj. pose proof (F_ready _ HF j Hj). updc; subst; simpl in *; [lia|assumption].
+    - (* Hand *)
+      pose proof (F_ready _ HF i) as Ri. pose proof (F_passed _ HF i) as Pi.
+      pose proof (F_passed _ HF (S i)) as PSi.
+      destruct (cancelled st); injection Hs as <-; (apply G; simpl; [| |apply (F_resp _ HF)]).
+      + intros j k Hj. pose proof (F_passed _ HF j k Hj). updc; subst; simpl in *; try assumption.
+        * intros Hk. apply PSi; [assumption|]. 
+          pose proof (I_chan _ _ _ _ HI i ltac:(lia)) as E. unfold sent, recv in E. rewrite H2 in E. lia.
+        * intros Hk. destruct (Nat.eq_dec k (cnt (nodes st i))) as [->|Hne]; [apply Ri; assumption | apply Pi; [assumption|lia]].
+      + intros j Hj. pose proof (F_ready _ HF j Hj). updc; subst; simpl in *; try assumption; discriminate.
+      + intros j k Hj. pose proof (F_passed _ HF j k Hj). updc; subst; simpl in *; try assumption.
+        * intros Hk. apply PSi; [assumption|].
+          pose proof (I_chan _ _ _ _ HI i ltac:(lia)) as E. unfold sent, recv in E. rewrite H2 in E. lia.
+        * intros Hk. destruct (Nat.eq_dec k (cnt (nodes st i))) as [->|Hne]; [apply Ri; assumption | apply Pi; [assumption|lia]].
+      + intros j Hj. pose proof (F_ready _ HF j Hj). updc; subst; simpl in *; try assumption; discriminate.
+    - (* Begin *)
+      destruct (i <=? n) eqn:Hin; bfacts; injection Hs as <-; (apply G; simpl).
+      + intros j k Hj. pose proof (F_passed _ HF j k Hj). updc; subst; simpl in *; assumption.
+      + intros j Hj. pose proof (F_ready _ HF j Hj). updc; subst; simpl in *; try assumption; discriminate.
+      + constructor; [|apply (F_resp _ HF)]. split; simpl.
+        * pose proof (I_bound _ _ _ _ HI i) as Bd. unfold bounded in Bd. rewrite H2 in Bd. exact Bd.
+        * intros _. split.
+          { intros Hi2. apply (F_passed _ HF (pred i)); [lia|].
+            pose proof (I_chan _ _ _ _ HI (pred i) ltac:(lia)) as E.
+            replace (S (pred i)) with i in E by lia. unfold sent, recv in E. rewrite H2 in E. lia. }
+          { intros j Hj1 Hj2. apply (F_passed _ HF (i + j)); [lia|].
+            pose proof (cnt_chain n m fails st HI j i ltac:(lia)). lia. }
+      + intros j k Hj. pose proof (F_passed _ HF j k Hj). updc; subst; simpl in *; assumption.
+      + intros j Hj. pose proof (F_ready _ HF j Hj). updc; subst; simpl in *; try assumption; discriminate.
+      + apply (F_resp _ HF).
+    - (* End *)
+      destruct (i <=? n) eqn:Hin; bfacts; injection Hs as <-; (apply G; simpl).
+      + intros j k Hj. pose proof (F_passed _ HF j k Hj). updc; subst; simpl in *; assumption.
+      + intros j Hj. pose proof (F_ready _ HF j Hj). updc; subst; simpl in *; try assumption.
+        destruct (fails i (cnt (nodes st i))); [discriminate | reflexivity].
+      + constructor; [|apply (F_resp _ HF)]. split; simpl; [|discriminate].
+        pose proof (I_bound _ _ _ _ HI i) as Bd. unfold bounded in Bd. rewrite H2 in Bd. exact Bd.
+      + intros j k Hj. pose proof (F_passed _ HF j k Hj). updc; subst; simpl in *; try assumption. lia.
+      + intros j Hj. pose proof (F_ready _ HF j Hj). updc; subst; simpl in *; try assumption; discriminate.
+      + apply (F_resp _ HF).
+    - (* Report *) injection Hs as <-. apply G; simpl; [| |apply (F_resp _ HF)].
+      + intros j k Hj. pose proof (F_passed _ HF j k Hj). updc; subst; simpl in *; assumption.
+      + intros j Hj. pose proof (F_ready _ HF j Hj). updc; subst; simpl in *; assumption.
+    - (* CloseCh *)
+      destruct ((i =? 0) || negb (cancelled st)); [destruct (i =? S n)|]; injection Hs as <-;
+        (apply G; simpl; [| |apply (F_resp _ HF)]).
+      all: try (intros j k Hj; pose proof (F_passed _ HF j k Hj); updc; subst; simpl in *; assumption).
+      all: intros j Hj; pose proof (F_ready _ HF j Hj); updc; subst; simpl in *; try assumption; try discriminate; congruence.
+    - injection Hs as <-. apply G; simpl; [| |apply (F_resp _ HF)].
+      + intros j k Hj. pose proof (F_passed _ HF j k Hj). updc; subst; simpl in *; assumption.
+      + intros j Hj. pose proof (F_ready _ HF j Hj). updc; subst; simpl in *; assumption.
+    - injection Hs as <-. apply G; simpl; [| |apply (F_resp _ HF)].
+      + intros j k Hj. pose proof (F_passed _ HF j k Hj). updc; subst; simpl in *; assumption.
+      + intros j Hj. pose proof (F_ready _ HF j Hj). updc; subst; simpl in *; assumption.
+  Qed.
+
+  Lemma run_finv : forall sched st, Inv st -> FInv st -> FInv (run sched st).
+  Proof.
+    induction sched as [|l rest IH]; intros st HI HF; simpl; [assumption|].
+    unfold Pipe.step_or_stay. destruct (step l st) as [st'|] eqn:E.
+    - apply IH; [eapply step_inv; eassumption | eapply step_finv; eassumption].
+    - apply IH; assumption.
+  Qed.
+
+  Lemma run_respects : forall sched, respects n m fails (trace (run sched init)).
+  Proof.
+    intros sched. unfold respects, trace. apply Forall_rev.
+    apply (F_resp _ (run_finv sched init (inv_init n m fails) finv_init)).
+  Qed.
+
+  (* the traces of the instance (n, m, fails) are exactly the accepted event lists that fit it *)
+  Theorem trace_exact : forall tr,
+    (exists sched, trace (run sched init) = tr) <-> (trace_ok n tr = true /\ respects n m fails tr).
+  Proof.
+    intros tr. split.
+    - intros (sched & <-). split; [apply trace_ok_complete_run | apply run_respects].
+    - intros [HT HR]. apply trace_ok_iff in HT. destruct (exact_run tr HT HR) as (sched & E & _).
+      exists sched. exact E.
+  Qed.
 End Exact.
+
+(* ------------------------------------------------------------------ the oracle-free corollary *)
+Lemma count_ev_le_length : forall i p l, count_ev i p l <= length l.
+Proof.
+  intros i p l. unfold count_ev. induction l as [|a l IH]; simpl; [lia|].
+  destruct ((ev_stage a =? i) && evphase_eqb (ev_ph a) p); simpl; lia.
+Qed.
+
+(* an accepted event list fits the instance with (length tr) items and no failing stage function *)
+Lemma tr_spec_respects_nofail : forall n tr, tr_spec n tr ->
+  respects n (length tr) (fun _ _ => false) tr.
+Proof.
+  intros n tr HS. unfold respects. apply Forall_forall. intros e Hin.
+  apply in_split in Hin. destruct Hin as (pre & post & ->).
+  pose proof (HS pre e post eq_refl) as HE. unfold ev_ok in HE. destruct HE as [_ HE].
+  split; [|intros _; split; intros; reflexivity].
+  rewrite app_length. simpl.
+  destruct (ev_ph e).
+  - destruct HE as (K & _). pose proof (count_ev_le_length (ev_stage e) EvBegin pre). lia.
+  - destruct HE as (_ & K). pose proof (count_ev_le_length (ev_stage e) EvEnd pre). lia.
+Qed.
+
+Theorem trace_ok_exact : forall n tr, trace_ok n tr = true ->
+  exists m fails sched, trace (run n m fails sched init) = tr.
+Proof.
+  intros n tr HT. exists (length tr), (fun _ _ => false).
+  apply (trace_exact n (length tr) (fun _ _ => false) tr). split; [exact HT|].
+  apply tr_spec_respects_nofail. apply trace_ok_iff. exact HT.
+Qed.
+
+(* the checker without the back-pressure clause accepts an event list that no run emits:
+   two stages; stage 1 begins its third item although stage 2 has not taken anything yet *)
+Definition loose_witness : list event :=
+  [mkEv 1 EvBegin 0; mkEv 1 EvEnd 0; mkEv 1 EvBegin 1; mkEv 1 EvEnd 1; mkEv 1 EvBegin 2].
+
+Theorem trace_ok_loose_not_exact :
+  trace_ok_loose 2 loose_witness = true /\
+  forall m fails sched, trace (run 2 m fails sched init) <> loose_witness.
+Proof.
+  split; [vm_compute; reflexivity|].
+  intros m fails sched E.
+  pose proof (trace_ok_complete_run 2 m fails sched) as H. rewrite E in H.
+  vm_compute in H. discriminate.
+Qed.
